@@ -123,6 +123,30 @@ func (g *liveGraph) readAll() []int {
 	return out
 }
 
+// readState: every parameter + the model version, read by a helper goroutine under the window deadline (an
+// implementation that never releases the mutex must not hang the harness).  ok=false: the read did not return.
+func (g *liveGraph) readState() (vals []int, ver uint32, ok bool) {
+	type st struct {
+		vals []int
+		ver  uint32
+	}
+	ch := make(chan st, 1)
+	go func() { ch <- st{g.readAll(), g.inst.ModelVersion()} }()
+	select {
+	case x := <-ch:
+		return x.vals, x.ver, true
+	case <-time.After(*windowTimeout + *windowTimeout/2):
+		return nil, 0, false
+	}
+}
+
+func stuckRead(clock *atomic.Uint64) rec {
+	rc := rec{T: 0, Op: opD{K: "g", P: 0}, Resp: respD{K: "fail"}, Note: "ParameterData did not return at a quiescent point"}
+	rc.Inv = clock.Add(1)
+	rc.Res = clock.Add(1)
+	return rc
+}
+
 // ---------------------------------------------------------------- one window
 type msgT struct {
 	done bool
@@ -152,17 +176,38 @@ func runWindow(g *liveGraph, progs [][]opD, clock *atomic.Uint64) (recs []rec, t
 	}
 	finished := 0
 	count := make([]int, T)
-	deadline := time.After(*windowTimeout)
+	handle := func(m msgT) {
+		if m.done {
+			finished++
+		} else {
+			recs = append(recs, m.r)
+			count[m.t]++
+		}
+	}
+	// The deadline is an INACTIVITY deadline with a grace period: when the whole process is stalled (overloaded
+	// or throttled machine) the timer fires as soon as it resumes although nothing is wrong, so a window is
+	// declared stuck only when no client made progress for the deadline AND for a further grace period.
+	timer := time.NewTimer(*windowTimeout)
+	defer timer.Stop()
 	for finished < T {
 		select {
 		case m := <-ch:
-			if m.done {
-				finished++
-			} else {
-				recs = append(recs, m.r)
-				count[m.t]++
+			handle(m)
+			if !timer.Stop() {
+				select {
+				case <-timer.C:
+				default:
+				}
 			}
-		case <-deadline:
+			timer.Reset(*windowTimeout)
+		case <-timer.C:
+			select {
+			case m := <-ch:
+				handle(m)
+				timer.Reset(*windowTimeout)
+				continue
+			case <-time.After(*windowTimeout / 2):
+			}
 			// stuck clients (deadlock in the implementation): their current call never returned
 			for t := range progs {
 				if count[t] < len(progs[t]) {
@@ -443,10 +488,25 @@ func main() {
 		for a := 0; a < *attempts; a++ {
 			g := build(w.Shape, w.Init, &jit{level: w.Jitter})
 			nw := &windowD{Shape: w.Shape, Threads: w.Threads, Jitter: w.Jitter, Progs: w.Progs}
-			nw.Init, nw.Ver = g.readAll(), g.inst.ModelVersion()
+			var ok0 bool
+			if nw.Init, nw.Ver, ok0 = g.readState(); !ok0 {
+				nw.Init, nw.Timeout = w.Init, true
+				nw.Final = w.Init
+				finishWindow(nw, []rec{stuckRead(clock)})
+				last = nw
+				break
+			}
 			recs, to := runWindow(g, w.Progs, clock)
 			nw.Timeout = to
-			nw.Final, nw.VerAfter = g.readAll(), g.inst.ModelVersion()
+			nw.Final, nw.VerAfter = nw.Init, nw.Ver
+			if !to {
+				if f, v, ok := g.readState(); ok {
+					nw.Final, nw.VerAfter = f, v
+				} else {
+					nw.Timeout = true
+					recs = append(recs, stuckRead(clock))
+				}
+			}
 			finishWindow(nw, recs)
 			last = nw
 			run.Count("replay:attempt")
@@ -467,7 +527,7 @@ func main() {
 	r := hx.NewRng(run.Seed)
 	fixed := fixedShapes()
 	var windows []*windowD
-	epoch := 0
+	epoch, wedged := 0, 0
 	for len(windows) < run.N {
 		var shape *shapeD
 		if epoch < len(fixed) {
@@ -489,23 +549,41 @@ func main() {
 		if jl > 0 && r.Chance(1, 5) {
 			jl = r.Intn(jl + 1)
 		}
-		g := build(shape, randomInit(r, shape), &jit{level: jl})
-		cur, ver := g.readAll(), g.inst.ModelVersion()
+		init0 := randomInit(r, shape)
+		g := build(shape, init0, &jit{level: jl})
+		cur, ver, ok0 := g.readState()
+		if !ok0 {
+			// the very first sequential reads hang: report it as a one-call window and try another epoch
+			w := &windowD{Shape: shape, Threads: 1, Jitter: jl, Init: init0, Final: init0, Timeout: true}
+			finishWindow(w, []rec{stuckRead(clock)})
+			windows = append(windows, w)
+			if wedged++; wedged >= 4 {
+				break
+			}
+			continue
+		}
 		nwin := r.Range(20, 50)
 		for k := 0; k < nwin && len(windows) < run.N; k++ {
 			w := &windowD{Shape: shape, Threads: T, Jitter: jl, Init: cur, Ver: ver}
 			w.Progs = genPrograms(r, g, T, cur, *unlockedReads)
 			recs, to := runWindow(g, w.Progs, clock)
 			w.Timeout = to
-			if to {
-				w.Final, w.VerAfter = cur, ver // the instance is wedged: do not touch it again
-			} else {
-				w.Final, w.VerAfter = g.readAll(), g.inst.ModelVersion()
+			w.Final, w.VerAfter = cur, ver // kept when the instance is wedged: it is not touched again
+			if !to {
+				if f, v, ok := g.readState(); ok {
+					w.Final, w.VerAfter = f, v
+				} else {
+					to, w.Timeout = true, true
+					recs = append(recs, stuckRead(clock))
+				}
 			}
 			finishWindow(w, recs)
 			windows = append(windows, w)
 			cur, ver = w.Final, w.VerAfter
 			if to {
+				if wedged++; wedged >= 4 {
+					run.N = len(windows) // a wedged implementation: a few reports are enough
+				}
 				break // abandon the epoch (stuck goroutines are leaked)
 			}
 		}
